@@ -516,13 +516,25 @@ def gen_plan(run_seed, tier, index):
             m['vanish_cls'] = cls
         msgs.append(m)
     msgs.append({'ind': 'final', 'expect': 'ack'})
+    senders = [{'msgs': msgs}]
+    main = [['start'], ['senders', [0]], ['join_senders'], ['stop']]
+    if r.random() < 0.25:
+        # a second, slow sender: sends part of a request, stays silent for a
+        # long (virtual) time, then completes it
+        iid = 'slow'
+        raw = lworld.indication_request(iid)
+        he = raw.find(b'\r\n\r\n')
+        cut = r.choice([r.randint(1, he), he + 4, r.randint(he + 4, len(raw) - 1)])
+        senders.append({'msgs': [{'ind': iid, 'expect': 'ack',
+                                  'stall': {'after': cut,
+                                            'secs': r.choice([300.0, 2000.0])}}]})
+        main = [['start'], ['senders', [1]], ['yield', r.randint(3, 12)],
+                ['senders', [0]], ['join_senders'], ['stop']]
     return {'check': ID, 'sched': sched,
             'listener': {'http_port': PORT,
-                         'queue': r.choice([0, 0, 0, 10])},
-            'callbacks': [{'dur': r.choice([0, 0, 0.1])}],
-            'senders': [{'msgs': msgs}],
-            'main': [['start'], ['senders', [0]], ['join_senders'],
-                     ['stop']]}
+                         'queue': r.choice([0, 0, 0, 1, 2, 10])},
+            'callbacks': [{'dur': r.choice([0, 0, 0.1, 5.0])}],
+            'senders': senders, 'main': main}
 
 
 _REQLINE_OK = re.compile(rb'^[!-~]+ [!-~]+ HTTP/1\.[0-9]\r?$')
@@ -552,7 +564,6 @@ def evaluate(plan, H):
                 viol('thread-left-after-stop', str(rec['owned_alive']))
             if rec['ports']:
                 viol('port-left-after-stop', str(rec['ports']))
-    msgs = plan['senders'][0]['msgs']
     deliv = {}
     for e in H['events']:
         if e['k'] == 'deliver':
@@ -562,8 +573,9 @@ def evaluate(plan, H):
         herr.setdefault(cid, []).append((et, msg))
     answered_mutated = 0
     from lxml import etree
+    qsize = plan['listener'].get('queue', 0)
     for rec in H['responses']:
-        m = msgs[rec['msg']]
+        m = plan['senders'][rec['sender']]['msgs'][rec['msg']]
         exp = m.get('expect', 'any')
         mut = '+'.join(m.get('mut', ['valid']))
         iid = m.get('ind') or m.get('id')
@@ -645,7 +657,10 @@ def evaluate(plan, H):
             bump(probes, 'cimerror_' + hd['cimerror'])
         # expectation
         bad = None
-        if exp == 'ack' and cls != 'ack':
+        if exp == 'ack' and cls == 'cimerr' and qsize and \
+                b'queue is full' in p['body']:
+            bump(faults, 'queue_full_answered')
+        elif exp == 'ack' and cls != 'ack':
             bad = 'valid request not acknowledged'
         elif exp == 'cimerr' and cls != 'cimerr':
             bad = 'expected CIM-XML ERROR response'
@@ -663,6 +678,14 @@ def evaluate(plan, H):
             viol('wrong-response/' + exp,
                  '%s: %s; got status %d %s headers %s' %
                  (ctx, bad, st, cls, p['headers']))
+        # a stalled sender on another connection must not delay this one
+        if rec['sender'] == 0 and 't_sent' in rec and \
+                rec['t'] - rec['t_sent'] > 60.0:
+            viol('response-delayed-by-other-sender',
+                 '%s: answered after %.0f virtual seconds' %
+                 (ctx, rec['t'] - rec['t_sent']))
+        if m.get('stall'):
+            bump(faults, 'stalled_sender')
         # delivery
         if iid is not None and not m.get('ambiguous'):
             n = deliv.get(iid, 0)
@@ -704,6 +727,11 @@ def sample(plan, res):
 
 
 def shrink_candidates(plan):
+    if len(plan['senders']) > 1:
+        p = copy.deepcopy(plan)
+        del p['senders'][1]
+        p['main'] = [['start'], ['senders', [0]], ['join_senders'], ['stop']]
+        yield p
     msgs = plan['senders'][0]['msgs']
     for i in range(len(msgs) - 1, -1, -1):
         p = copy.deepcopy(plan)
